@@ -89,6 +89,15 @@ def search(ctx, N):
                 ref = float(np.dot(exact, v) / np.linalg.norm(v))
                 if not abs(float(dd) - ref) <= 1e-8 * (1 + abs(ref)) + 100 * float(np.ravel(info.error_estimate)[0]):
                     ctx.violation('dirdiff', 'directionaldiff(f, x, v) = %r but Gradient(f)(x) . v/|v| = %r' % (float(dd), ref), dict(desc, v=v.tolist()))
+                # matrix-shaped x0 and direction (same shapes, at least 2 x 2): the direction is normalised by its Euclidean length
+                if n >= 4 and n % 2 == 0:
+                    shp = (2, n // 2)
+                    fm = lambda t, f=f: f(np.ravel(t))     # noqa
+                    dd2 = nd.directionaldiff(fm, x.reshape(shp), v.reshape(shp), method=method if method != 'multicomplex' else 'central')
+                    ctx.count(1, ('dirdiff-matrix', method))
+                    if not abs(float(dd2) - ref) <= 1e-7 * (1 + abs(ref)) + 100 * float(np.ravel(info.error_estimate)[0]):
+                        ctx.violation('dirdiff-matrix-shaped', 'directionaldiff(f, x, v) with x and v of shape %r = %r but Gradient(f)(x) . v/|v| = %r (|v| the Euclidean length of all entries)' % (shp, float(dd2), ref),
+                                      dict(desc, v=v.tolist(), shape=list(shp)))
         except Exception as ex:   # noqa
             ctx.violation('raises:%s:m=%s' % (desc['kind'], '1' if m == 1 else '>1'), 'nd.Jacobian/Gradient raises %r for %s, n=%d, m=%d, method=%r' % (ex, desc['kind'], n, m, method), desc)
 
